@@ -43,7 +43,7 @@ REAL_VS_STUB = {"real": ["torchsde.BrownianInterval/BrownianPath/BrownianTree", 
                          "trampoline", "numpy SeedSequence", "torch kernels"],
                 "stub": ["value cache wrapped by FaultyCache (forwarding)", "np.random.randint (entropy seam)",
                          "SDE zoo drift/diffusion (mode sdeint)"]}
-PROBES = ("calls_monitored", "mode_machine", "mode_sweep", "mode_sdeint", "sweep_ge_1000", "backward_sweep",  # sweep_ge_10000: thorough tier only
+PROBES = ("misc_ops", "calls_monitored", "mode_machine", "mode_sweep", "mode_sdeint", "sweep_ge_1000", "backward_sweep",  # sweep_ge_10000: thorough tier only
           "clipped_last_step_le_4ulp", "sub_tolerance_query", "zero_len_after_rounding", "cache0", "tiny_cache",
           "refinement_fired", "sdeint_default_bm", "sdeint_tree_or_path", "dt_hint_far_off", "f32_grid")
 STATE_MEASURE = "distinct final interval-tree shapes (hash of display_binary_tree dump; machine and small sweeps only)"
@@ -198,7 +198,8 @@ def _run_machine(case, log, probes):
     mon = Mon(built, log, cfg)
     tol = xf(cfg["tol"])
     for i, op in enumerate(case["ops"]):
-        if bm.apply_env(op):
+        if bm.apply_env(op, mon.ex):
+            probes["misc_ops"] += int(op["op"] == "misc")
             continue
         td0 = getattr(built.interval, "_tree_dt", None) if built.interval is not None else None
         if op["op"] == "point":
